@@ -1,0 +1,77 @@
+//go:build verif
+
+// Contracts for the deductive checker in /verif (comment-only).
+
+package route
+
+// ---------------------------------------------------------------- navigation (spec functions)
+// Every route type embeds baseRoute; its published configuration is the Config value last
+// stored in baseRoute.config (a baseConfig or a consistentHashingConfig).
+//@ spec routeBase(r Route) := embedded(r, baseRoute)
+//@ spec isRouteType(r Route) := typeIs(r, *SendAllMatch) || typeIs(r, *SendFirstMatch) || typeIs(r, *ConsistentHashing)
+//@    || typeIs(r, *GrafanaNet) || typeIs(r, *KafkaMdm) || typeIs(r, *PubSub) || typeIs(r, *CloudWatch)
+//@ spec baseConf(b baseRoute) := mkiface(b.config.valtag, b.config.valref)
+//@ spec isConfType(c Config) := typeIs(c, baseConfig) || typeIs(c, consistentHashingConfig)
+//@ spec confMatcher(c Config) := embedded(c, baseConfig).matcher
+//@ spec confDests(c Config) := embedded(c, baseConfig).dests
+//@ spec routeMatcher(r Route) := confMatcher(baseConf(routeBase(r)))
+//@ spec routeWf(r Route) := r != nil && isRouteType(r) && isConfType(baseConf(routeBase(r))) && wfm(routeMatcher(r))
+//@ spec baseWf(b baseRoute) := isConfType(baseConf(b)) && wfm(confMatcher(baseConf(b)))
+
+// ---------------------------------------------------------------- the Route interface (C01, C03, C04, C11)
+//@ iface (r Route) Match(s []byte) bool
+//@   property C01,C03
+//@   pure
+//@   requires routeWf(r)
+//@   ensures[filter] result == matchSpec(routeMatcher(r), s[..])
+//@
+//@ iface (r Route) Dispatch(buf []byte)
+//@   property C01,C04
+//@   logged
+//@   modifies allof("chan#sent"), allof("ghost:metrics.Counter.count")
+//@   ensures[table_counters] forall c ref :: gh("metrics.Counter.tableOwned", c) ==> gh("metrics.Counter.count", c) == old(gh("metrics.Counter.count", c))
+
+// ---------------------------------------------------------------- route.go
+//@ func (route *baseRoute) Match(s []byte) bool
+//@   property C01,C03
+//@   requires baseWf(*route)
+//@   ensures[filter] result == matchSpec(confMatcher(baseConf(*route)), s[..])
+
+// ---------------------------------------------------------------- send-all-match / send-first-match (C01, C03)
+//@ spec destsWf(d []*dest.Destination) :=
+//@      (forall j int :: 0 <= j && j < len(d) ==> d[j] != nil && wfm(d[j].Matcher) && !d[j].lockMatcher.held && d[j].In != nil)
+//@   && (forall i int, j int :: 0 <= i && i < j && j < len(d) ==> d[i] != d[j] && d[i].In != d[j].In)
+//@ spec destAccepts(d *dest.Destination, name bytes) := matchSpec(d.Matcher, name)
+//@
+//@ func (route *SendAllMatch) Dispatch(buf []byte)
+//@   property C01,C03
+//@   requires baseWf(route.baseRoute) && destsWf(confDests(baseConf(route.baseRoute)))
+//@   let d  := confDests(baseConf(route.baseRoute))
+//@   let nm := nameOf(buf[..])
+//@   modifies allof("chan#sent"), allof("ghost:sync.Mutex.held")
+//@   ensures[all_matching] forall j int :: 0 <= j && j < len(d) ==>
+//@        sent(d[j].In) == (destAccepts(d[j], nm) ? old(sent(d[j].In)) ++ elemOf(buf) : old(sent(d[j].In)))
+//@   ensures[no_other] forall ch ref :: (forall j int :: 0 <= j && j < len(d) ==> d[j].In != ch) ==> sent(ch) == old(sent(ch))
+//@   ensures[unlocked] forall j int :: 0 <= j && j < len(d) ==> !d[j].lockMatcher.held
+//@   loop 1:
+//@     invariant[idx]   0 <= #i && #i <= len(#s) && #s == d && buf == old(buf) && buf[..] == old(buf[..])
+//@     invariant[done]  forall j int :: 0 <= j && j < #i ==>
+//@        sent(d[j].In) == (destAccepts(d[j], nm) ? old(sent(d[j].In)) ++ elemOf(buf) : old(sent(d[j].In)))
+//@     invariant[todo]  forall j int :: #i <= j && j < len(d) ==> sent(d[j].In) == old(sent(d[j].In))
+//@     invariant[other] forall ch ref :: (forall j int :: 0 <= j && j < len(d) ==> d[j].In != ch) ==> sent(ch) == old(sent(ch))
+//@     invariant[wf]    destsWf(d)
+//@
+//@ func (route *SendFirstMatch) Dispatch(buf []byte)
+//@   property C01,C03
+//@   requires baseWf(route.baseRoute) && destsWf(confDests(baseConf(route.baseRoute)))
+//@   let d  := confDests(baseConf(route.baseRoute))
+//@   let nm := nameOf(buf[..])
+//@   modifies allof("chan#sent"), allof("ghost:sync.Mutex.held")
+//@   ensures[first_only] forall j int :: 0 <= j && j < len(d) ==>
+//@        sent(d[j].In) == ((destAccepts(d[j], nm) && (forall k int :: 0 <= k && k < j ==> !destAccepts(d[k], nm))) ? old(sent(d[j].In)) ++ elemOf(buf) : old(sent(d[j].In)))
+//@   ensures[no_other] forall ch ref :: (forall j int :: 0 <= j && j < len(d) ==> d[j].In != ch) ==> sent(ch) == old(sent(ch))
+//@   loop 1:
+//@     invariant[idx]    0 <= #i && #i <= len(#s) && #s == d && buf == old(buf) && buf[..] == old(buf[..])
+//@     invariant[none]   forall k int :: 0 <= k && k < #i ==> !destAccepts(d[k], nm)
+//@     invariant[quiet]  forall ch ref :: sent(ch) == old(sent(ch))
+//@     invariant[wf]     destsWf(d)
